@@ -178,7 +178,7 @@ func amark(c osm.ChangesetID) int64 {
 // errors of the fault-injecting datasource
 var (
 	errDatasource  = errors.New("c13 harness: datasource failure (i/o error, timeout, ...)") // NotFound(err) == false
-	errOwnNotFound = errors.New("c13 harness: no such element")                               // NotFound(err) == true
+	errOwnNotFound = errors.New("c13 harness: no such element")                              // NotFound(err) == true
 )
 
 type faultKey struct {
